@@ -129,9 +129,8 @@ theorem tie_set_country_id (cs : List Str) (c : Option Str) : Gen.ScenarioID_set
   | none => rfl
   | some c => 
     simp only [ZAM]
-    by_cases h : c ∈ cs ∨ c = ['Z', 'A', 'M']
-    · simp [h]; rfl
-    · simp [h]; rfl
+    -- robust against the order of the two tests
+    by_cases h1 : c ∈ cs <;> by_cases h2 : c = ['Z', 'A', 'M'] <;> simp [h1, h2] <;> rfl
 
 theorem joinS_single (c : Char) : ∀ l : List Str, joinS [c] l = join c l
   | [] => rfl
@@ -280,6 +279,7 @@ theorem tie_parse_benchmark_id (cs : List Str) (s : Str) :
   have e : splitOn ':' (s.filter fun c => c != ' ') = split (removeChar ' ' s) ':' := rfl
   rw [parseBenchmarkId_eq, e]
   unfold Gen.Reader_parse_benchmark_id
+  try dsimp only []       -- local names for intermediate strings (`let`) are unfolded first
   generalize split (removeChar ' ' s) ':' = L
   simp only [split, tie_from_benchmark_id, delClass_brackets]
   rcases L with _ | ⟨a, _ | ⟨b, _ | ⟨c, _ | ⟨d, _ | ⟨e, t⟩⟩⟩⟩⟩
@@ -329,17 +329,17 @@ theorem tie_parse_vehicle_id (v : Str) : Gen.Reader_parse_vehicle_id v = parseVe
       cases h : v.getLast? with
       | none => simp [List.getLast?_eq_none_iff] at h; exact absurd h hne
       | some c => exact ⟨c, rfl⟩
-    have hcond : ((!decide ((v.length : Int) = 3)) && (!decide ((v.length : Int) = 4))) = false := by
-      rcases h34 with h | h <;> simp [h]
-    simp only [hcond, hlen, getItem_last v c hc, pyInt_char, hc]
-    cases hm : VModel.all.find? (fun m => decide (m.name = v.dropLast)) with
-    | none => simp [throw, throwThe, MonadExceptOf.throw]
-    | some m =>
-      by_cases hd : c.isDigit = true
-      · simp only [hd, bind, Except.bind, if_true, find_value_cast]
-        cases ht : VType.all.find? (fun t => decide (t.value = digitVal c)) with
-        | none => simp [throw, throwThe, MonadExceptOf.throw]
-        | some t => simp [pure, Except.pure]
-      · simp [hd, bind, Except.bind]
+    simp only [hlen, getItem_last v c hc, pyInt_char, hc]
+    -- the guard on the length, however it is spelled (`not len == 3 and not len == 4`, `len not in (3, 4)`, …), is false here
+    rcases h34 with hI | hI <;> simp only [hI] <;>
+    · cases hm : VModel.all.find? (fun m => decide (m.name = v.dropLast)) with
+      | none => simp [throw, throwThe, MonadExceptOf.throw]
+      | some m =>
+        by_cases hd : c.isDigit = true
+        · simp only [hd, bind, Except.bind, if_true, find_value_cast]
+          cases ht : VType.all.find? (fun t => decide (t.value = digitVal c)) with
+          | none => simp [throw, throwThe, MonadExceptOf.throw]
+          | some t => simp [pure, Except.pure]
+        · simp [hd, bind, Except.bind]
 
 end CR.BenchId
